@@ -1,5 +1,6 @@
 import GroupbyVerif.Model.Proto
 import GroupbyVerif.Model.Align
+import GroupbyVerif.Model.Facade
 
 /-!
 # gbdriver — executable model behind the line protocol
@@ -167,6 +168,27 @@ def opAlign (kv : KV) : Option String := do
   let r := GV.C18.accepts nKeys keyIndex lens idxs
   pure s!"model={if r then "accept" else "reject"} spec={if r then "accept" else "reject"}"
 
+/-- `resolve cols=<labels> idx=<index level names> by=<l:label|a:id|c:id ...> levels=<numbers>`: keys and value columns of the facade -/
+def opResolve (kv : KV) : Option String := do
+  let cols := splitComma (← get kv "cols")
+  let idx := splitComma (← get kv "idx")
+  let byItems ← (splitComma (← get kv "by")).mapM fun t =>
+    match t.splitOn ":" with
+    | ["l", nm] => some (GV.Facade.ByItem.label nm)
+    | ["a", n] => (parseNat n).map GV.Facade.ByItem.array
+    | ["c", n] => (parseNat n).map GV.Facade.ByItem.callable
+    | _ => none
+  let levels ← (splitComma (← get kv "levels")).mapM parseNat
+  let showKey : GV.Facade.KeySrc → String
+    | .column nm => s!"col:{nm}"
+    | .level i => s!"level:{i}"
+    | .array i => s!"array:{i}"
+    | .mapped i => s!"mapped:{i}"
+  let out := match GV.Facade.resolve ⟨cols, idx⟩ byItems levels with
+    | none => "error"
+    | some r => s!"keys:{"|".intercalate (r.keys.map showKey)};values:{",".intercalate r.valueColumns}"
+  pure s!"model={out} spec={out}"
+
 def opScalar (kv : KV) : Option String := do
   let fn ← get kv "fn"
   let k ← parseKind (← get kv "kind")
@@ -193,6 +215,7 @@ def step (line : String) : String :=
       | "ema" => opEma kv
       | "nanop" => opNanop kv
       | "align" => opAlign kv
+      | "resolve" => opResolve kv
       | "firstlast" => opFirstLast kv
       | "mono" => opMono kv
       | _ => none
